@@ -296,6 +296,130 @@ theorem partial_warning_topic (w : World) (name : String) (v : View)
       refine ⟨fun hall => ?_, fun _ => ⟨rfl, by simp [hf]⟩⟩
       exact absurd (hrule.1.2 hall) (by simp)
 
+/-- The same two-stage rule for `/api/topics/:t/:c` (plus 404 when no node reports the channel). -/
+theorem partial_warning_channel (w : World) (topic chan : String) (v : View)
+    (h : channelView Fixes.all w topic chan = .ok v) :
+    ∃ s1, getTopicProducers Fixes.all w topic = .ok s1 ∧
+      match s1 with
+      | .allFailed => v.status = 502
+      | .got ps f1 =>
+        let answers := statsAnswers w ps topic chan true
+        ((∀ a ∈ answers, a = none) → v.status = 502) ∧
+        ((∃ a ∈ answers, a ≠ none) →
+          v.status = 404 ∨
+          (v.status = 200 ∧ v.warn = (decide (f1 > 0) || decide (countFailed answers > 0)))) := by
+  unfold channelView at h
+  obtain ⟨s1, hs1⟩ := getTopicProducers_ok w topic
+  refine ⟨s1, hs1, ?_⟩
+  simp only [hs1] at h
+  cases s1 with
+  | allFailed => simp only [Except.ok.injEq] at h; subst h; rfl
+  | got ps f1 =>
+    obtain ⟨s2, hs2⟩ := nsqdStats_ok w ps topic chan true
+    simp only [hs2] at h
+    have hrule := nsqdStats_rule Fixes.all w ps topic chan true s2 hs2
+    cases s2 with
+    | allFailed =>
+      simp only [Except.ok.injEq] at h; subst h
+      refine ⟨fun _ => rfl, fun ⟨a, ha, hne⟩ => ?_⟩
+      exact absurd (hrule.1.1 rfl a ha) hne
+    | got tm f2 =>
+      obtain ⟨ts, m⟩ := tm
+      obtain ⟨hf, _⟩ := hrule.2 _ f2 rfl
+      simp only [] at h
+      cases hfind : m.find? (·.1 == chan) with
+      | none =>
+        simp only [hfind, all_chanNotFound, if_true, Except.ok.injEq] at h
+        subst h
+        exact ⟨fun hall => absurd (hrule.1.2 hall) (by simp), fun _ => Or.inl rfl⟩
+      | some kc =>
+        simp only [hfind, Except.ok.injEq] at h
+        subst h
+        exact ⟨fun hall => absurd (hrule.1.2 hall) (by simp), fun _ => Or.inr ⟨rfl, by simp [hf]⟩⟩
+
+/-- … and for `/api/counter` (all producers, then all their `/stats`). -/
+theorem partial_warning_counter (w : World) (v : View) (h : counterView Fixes.all w = .ok v) :
+    ∃ s1, getProducers Fixes.all w = .ok s1 ∧
+      match s1 with
+      | .allFailed => v.status = 502
+      | .got ps f1 =>
+        let answers := statsAnswers w ps "" "" false
+        ((∀ a ∈ answers, a = none) → v.status = 502) ∧
+        ((∃ a ∈ answers, a ≠ none) →
+          v.status = 200 ∧ v.warn = (decide (f1 > 0) || decide (countFailed answers > 0))) := by
+  unfold counterView at h
+  obtain ⟨s1, hs1⟩ := getProducers_ok w
+  refine ⟨s1, hs1, ?_⟩
+  simp only [hs1] at h
+  cases s1 with
+  | allFailed => simp only [Except.ok.injEq] at h; subst h; rfl
+  | got ps f1 =>
+    obtain ⟨s2, hs2⟩ := nsqdStats_ok w ps "" "" false
+    simp only [hs2] at h
+    have hrule := nsqdStats_rule Fixes.all w ps "" "" false s2 hs2
+    cases s2 with
+    | allFailed =>
+      simp only [Except.ok.injEq] at h; subst h
+      refine ⟨fun _ => rfl, fun ⟨a, ha, hne⟩ => ?_⟩
+      exact absurd (hrule.1.1 rfl a ha) hne
+    | got tm f2 =>
+      obtain ⟨ts, m⟩ := tm
+      obtain ⟨hf, _⟩ := hrule.2 _ f2 rfl
+      simp only [Except.ok.injEq] at h
+      subst h
+      exact ⟨fun hall => absurd (hrule.1.2 hall) (by simp), fun _ => ⟨rfl, by simp [hf]⟩⟩
+
+/-- What `/api/topics/:t` shows is `sum_fields` applied to the node reports GetNSQDStats returned,
+and what `/api/topics/:t/:c` shows is the `channels_merge` entry of the channel. -/
+theorem topic_view_is_sum (w : World) (name : String) (v : View)
+    (h : topicView Fixes.all w name = .ok v) (h200 : v.status = 200) :
+    ∃ ps f1 ts m f2 t, getTopicProducers Fixes.all w name = .ok (.got ps f1) ∧
+      nsqdStats Fixes.all w ps name "" false = .ok (.got (ts, m) f2) ∧
+      TopicAgg.addAll Fixes.all ts { name := name } = .ok t ∧ v.body = .topic t := by
+  unfold topicView at h
+  obtain ⟨s1, hs1⟩ := getTopicProducers_ok w name
+  simp only [hs1] at h
+  cases s1 with
+  | allFailed => simp only [Except.ok.injEq] at h; subst h; simp at h200
+  | got ps f1 =>
+    obtain ⟨s2, hs2⟩ := nsqdStats_ok w ps name "" false
+    simp only [hs2] at h
+    cases s2 with
+    | allFailed => simp only [Except.ok.injEq] at h; subst h; simp at h200
+    | got tm f2 =>
+      obtain ⟨ts, m⟩ := tm
+      obtain ⟨t, ht⟩ := addAll_ok ts { name := name }
+      simp only [ht, Except.ok.injEq] at h
+      subst h
+      exact ⟨ps, f1, ts, m, f2, t, hs1, hs2, ht, rfl⟩
+
+theorem channel_view_is_merge (w : World) (topic chan : String) (v : View)
+    (h : channelView Fixes.all w topic chan = .ok v) (h200 : v.status = 200) :
+    ∃ ps f1 ts m f2 c, getTopicProducers Fixes.all w topic = .ok (.got ps f1) ∧
+      nsqdStats Fixes.all w ps topic chan true = .ok (.got (ts, m) f2) ∧
+      lookup m chan = some c ∧ v.body = .channel c := by
+  unfold channelView at h
+  obtain ⟨s1, hs1⟩ := getTopicProducers_ok w topic
+  simp only [hs1] at h
+  cases s1 with
+  | allFailed => simp only [Except.ok.injEq] at h; subst h; simp at h200
+  | got ps f1 =>
+    obtain ⟨s2, hs2⟩ := nsqdStats_ok w ps topic chan true
+    simp only [hs2] at h
+    cases s2 with
+    | allFailed => simp only [Except.ok.injEq] at h; subst h; simp at h200
+    | got tm f2 =>
+      obtain ⟨ts, m⟩ := tm
+      simp only [] at h
+      cases hfind : m.find? (·.1 == chan) with
+      | none =>
+        simp only [hfind, all_chanNotFound, if_true, Except.ok.injEq] at h
+        subst h; simp at h200
+      | some kc =>
+        simp only [hfind, Except.ok.injEq] at h
+        subst h
+        exact ⟨ps, f1, ts, m, f2, kc.2, hs1, hs2, by simp [lookup, hfind], rfl⟩
+
 /-- **partial_warning (`/api/nodes`, nsqlookupd mode).** -/
 theorem partial_warning_nodes (w : World) (hl : w.lookupds ≠ []) (v : View)
     (h : nodesView Fixes.all w = .ok v) :
